@@ -117,16 +117,21 @@ func (s *dualWriter) Add(w io.Writer) {
 func (s *dualWriter) Remove(w io.Writer) {
 	if w != nil {
 		for i, x := range s.Normal {
-			if xl, ok := x.(*logwr); ok && xl == w {
-				s.Normal = append(s.Normal[:i], s.Normal[i+1:]...)
-				return
-			}
-			if x == w {
+			if sameWriter(x, w) {
 				s.Normal = append(s.Normal[:i], s.Normal[i+1:]...)
 				return
 			}
 		}
 	}
+}
+
+// sameWriter reports whether the list member x is the writer w that was
+// passed to Add/Set, either as is or wrapped by logwr.
+func sameWriter(x LogWriter, w io.Writer) bool {
+	if xl, ok := x.(*logwr); ok && xl.Writer == w {
+		return true
+	}
+	return x == w
 }
 
 func (s *dualWriter) AddErrorWriter(w io.Writer) {
@@ -142,11 +147,7 @@ func (s *dualWriter) AddErrorWriter(w io.Writer) {
 func (s *dualWriter) RemoveErrorWriter(w io.Writer) {
 	if w != nil {
 		for i, x := range s.Error {
-			if xl, ok := x.(*logwr); ok && xl == w {
-				s.Error = append(s.Error[:i], s.Error[i+1:]...)
-				return
-			}
-			if x == w {
+			if sameWriter(x, w) {
 				s.Error = append(s.Error[:i], s.Error[i+1:]...)
 				return
 			}
@@ -174,7 +175,7 @@ func (s *dualWriter) RemoveLevelWriter(lvl Level, w io.Writer) {
 		}
 		if lw, ok := s.leveled[lvl]; ok {
 			for i, wr := range lw {
-				if wr == w {
+				if sameWriter(wr, w) {
 					s.leveled[lvl] = append(s.leveled[lvl][:i], s.leveled[lvl][i+1:]...)
 					break
 				}
